@@ -81,7 +81,8 @@ pub fn jaxable(f: &mut FactSet) {
     };
     for t in &mut f.terms {
         t.name = clean(&t.name);
-        if t.name.is_empty() {
+        // an empty name is a name ("name: " followed by the line break); every second one is kept
+        if t.name.is_empty() && t.id % 2 == 0 {
             t.name = format!("unnamed {}", t.id);
         }
     }
